@@ -58,7 +58,7 @@ def run(pid):
                              "chunkings": [[], [1], [2], [3, 1, 7]] if i % 5 else [[], [1], [2], [3], [5], [7, 1], [64]], "log_frames": i % 20 == 0})
     # impl -> spec: long clean and dirty concatenations with random garbage bytes (pred unknown: <<-1>>)
     toks = ["FF", "S", "x", "x", "x"]
-    for i in range(60 if t == "quick" else 600):
+    for i in range(60 if t == "quick" else 8000):
         n = rnd.randint(20, 50) if i % 2 else rnd.randint(3, 8)
         clean = i % 3 == 0
         garbage = []
@@ -72,7 +72,7 @@ def run(pid):
                     gstr = [x for j, x in enumerate(gstr) if not (x == "S" and j > 0 and gstr[j - 1] == "FF")]
                 garbage.append(gstr)
         arrangements.append({"id": 100000 + i, "frames": [frame(k) for k in range(n)], "garbage": garbage, "pred": [],
-                             "chunkings": [[], [1], [rnd.randint(2, 9), rnd.randint(1, 40)]], "log_frames": i < 6})
+                             "chunkings": [[], [1], [rnd.randint(2, 9), rnd.randint(1, 40)]], "log_frames": i < (6 if t == "quick" else 400)})
     parts = [arrangements[i::8] for i in range(8)]
 
     def drive(ip):
